@@ -163,6 +163,11 @@ fn c09_one(chk: &Check, p: &Pnm) {
         if slots(&s) != want {
             vio!(chk, "C09", "encoding", &format!("{:?}/{:?}/Structured", p.kind, order), format!("pnm|{:?}|{}", p, lsb_first), format!("{:?} {:?}: encodes to {:?}, expected {:?}", p, order, slots(&s), want));
         }
+        // a third-party target type whose own from_bytes refuses everything: the encoder must not route through it
+        let f: [Option<ForeignRefusing>; 4] = m.to_short_messages(order);
+        if slots(&f) != want {
+            vio!(chk, "C09", "encoding", &format!("{:?}/{:?}/ForeignRefusing", p.kind, order), format!("pnm|{:?}|{}", p, lsb_first), format!("{:?} {:?}: encodes to {:?} for a third-party target type, expected {:?}", p, order, slots(&f), want));
+        }
         if want[3].is_some() != (p.kind == Kind::Entry14) {
             vio!(chk, "C09", "harness-self-check", "slots", String::new(), "harness encoding table inconsistent".to_string());
         }
